@@ -602,12 +602,31 @@ fn eval_call(name: &str, recv: Option<&E>, args: &[E], env: &mut Env) -> R {
         }
         if let Host::Typed(kinds) = &h {
             let mut vals = vec![];
-            for (k, kind) in kinds.iter().enumerate() {
-                let a = match args.get(k) {
-                    Some(a) => a,
-                    None => return terr(),
+            // values of the arguments evaluated so far, in source order: each argument is evaluated once
+            let mut evald: Vec<MV> = vec![];
+            let mut k = 0usize;
+            for kind in kinds.iter() {
+                if *kind == "args" {
+                    // the `Arguments` extractor: all arguments; those already evaluated are not evaluated again
+                    for a in args.iter().skip(evald.len()) {
+                        let v = eval(a, env)?;
+                        evald.push(v);
+                    }
+                    vals.push(MV::List(evald.clone()));
+                    continue;
+                }
+                let v = if k < evald.len() {
+                    evald[k].clone()
+                } else {
+                    let a = match args.get(k) {
+                        Some(a) => a,
+                        None => return terr(),
+                    };
+                    let v = eval(a, env)?;
+                    evald.push(v.clone());
+                    v
                 };
-                let v = eval(a, env)?;
+                k += 1;
                 if *kind != "any" && v.kind() != *kind {
                     return terr();
                 }
